@@ -2,6 +2,7 @@ import Std.Data.HashMap
 import GraafVerif.Driver.Common
 import GraafVerif.Driver.ReprDesc
 import GraafVerif.Model.Query
+import GraafVerif.Model.QueryFast
 import GraafVerif.Spec.Query
 /-!
 Driver handlers for property C02 (ops of `harness/src/ops/c02.rs`):
@@ -36,19 +37,27 @@ structure Inst where
   obs : V
   /-- `remove_arc(u, v)` on a clone: (returned value, clone still equal to the original) -/
   remove : Nat → Nat → Bool × Bool
+  /-- the threaded `degree_sequence` for thread count `t`: above order 300 the `Array` twin of the
+  list model (`Proof/QueryFast.lean: degreeSequenceFast_eq` — equal for every digraph and `t`) -/
+  degseq : Nat → Option (List Nat)
 
 def mkInst (d : GDesc) : Option Inst :=
   match d.repr with
   | "al" => (buildAL d).map fun g =>
-    ⟨AL.core g, false, fun _ _ => none, fun _ => none, obsAL g, fun u v => let r := g.removeArc u v; (r.2, r.1 == g)⟩
+    ⟨AL.core g, false, fun _ _ => none, fun _ => none, obsAL g, fun u v => let r := g.removeArc u v; (r.2, r.1 == g),
+     fun t => if g.order > 300 then some (AL.degreeSequenceFast g t) else (AL.core g).degreeSequence t⟩
   | "am" => (buildAM d).map fun g =>
-    ⟨AM.core g, false, fun _ _ => none, fun _ => none, obsAM g, fun u v => let r := g.removeArc u v; (r.2, r.1 == g)⟩
+    ⟨AM.core g, false, fun _ _ => none, fun _ => none, obsAM g, fun u v => let r := g.removeArc u v; (r.2, r.1 == g),
+     (AM.core g).degreeSequence⟩
   | "mx" => (buildMX d).map fun g =>
-    ⟨MX.core g, false, fun _ _ => none, fun _ => none, obsMX g, fun u v => let r := g.removeArc u v; (r.2, r.1 == g)⟩
+    ⟨MX.core g, false, fun _ _ => none, fun _ => none, obsMX g, fun u v => let r := g.removeArc u v; (r.2, r.1 == g),
+     (MX.core g).degreeSequence⟩
   | "el" => (buildEL d).map fun g =>
-    ⟨EL.core g, false, fun _ _ => none, fun _ => none, obsEL g, fun u v => let r := g.removeArc u v; (r.2, r.1 == g)⟩
+    ⟨EL.core g, false, fun _ _ => none, fun _ => none, obsEL g, fun u v => let r := g.removeArc u v; (r.2, r.1 == g),
+     (EL.core g).degreeSequence⟩
   | "wu" | "wi" => (buildW d).map fun g =>
-    ⟨WL.core g, true, g.arcWeight, WL.outNeighborsWeighted g, obsWL g, fun u v => let r := g.removeArc u v; (r.2, r.1 == g)⟩
+    ⟨WL.core g, true, g.arcWeight, WL.outNeighborsWeighted g, obsWL g, fun u v => let r := g.removeArc u v; (r.2, r.1 == g),
+     (WL.core g).degreeSequence⟩
   | _ => none
 
 /-! ## the oracle's digraph: the implementation's own observation -/
@@ -57,6 +66,7 @@ structure Obs where
   nverts : Nat
   narcs : Nat
   weighted : Bool
+  arcs : List (Nat × Nat) := []
 
 def parseObs (o : V) : Option Obs :=
   match o with
@@ -70,7 +80,8 @@ def parseObs (o : V) : Option Obs :=
     let m : Std.HashMap (Nat × Nat) Int :=
       triples.foldl (fun m a => m.insert (a.1, a.2.1) (a.2.2.getD 1)) {}
     let weighted := triples.any (fun a => a.2.2.isSome)
-    pure ⟨⟨verts, fun u v => m.contains (u, v), fun u v => m[(u, v)]?⟩, verts.length, triples.length, weighted⟩
+    pure ⟨⟨verts, fun u v => m.contains (u, v), fun u v => m[(u, v)]?⟩, verts.length, triples.length, weighted,
+      triples.map (fun a => (a.1, a.2.1))⟩
   | _ => none
 
 def firstDiff (xs ys : List V) (i : Nat := 0) : Option (Nat × V × V) :=
@@ -117,9 +128,27 @@ def partGlobal (m : Inst) (ob : Obs) : Part :=
          oNats q.outdegreeSequence, oPairs q.semidegreeSequence, oNat q.maxDegree, oNat q.minDegree,
          oNat q.maxIndegree, oNat q.minIndegree, oNat q.maxOutdegree, oNat q.minOutdegree] }
 
+/-- `Spec.degreeSequence` in linear time (hash maps) for large observations: for a strictly
+ascending vertex list it is the same value (each distinct arc `(u, v)` with both ends in `V` counts once
+for `u` and once for `v`); anything else falls back to the definition itself. -/
+def degreeSequenceOracle (ob : Obs) : List Nat :=
+  let vs := ob.G.verts
+  let ascending := (vs.zip (vs.drop 1)).all (fun p => p.1 < p.2)
+  if ob.nverts ≤ 300 || !ascending then Spec.degreeSequence ob.G
+  else
+    let vset : Std.HashMap Nat Unit := vs.foldl (fun s v => s.insert v ()) {}
+    let distinct : Std.HashMap (Nat × Nat) Unit := ob.arcs.foldl (fun s a => s.insert a ()) {}
+    let cnt : Std.HashMap Nat Nat := distinct.fold (fun c a _ =>
+      if vset.contains a.1 && vset.contains a.2 then
+        let c := c.insert a.1 (c.getD a.1 0 + 1)
+        c.insert a.2 (c.getD a.2 0 + 1)
+      else c) {}
+    vs.map (fun v => cnt.getD v 0)
+
 def partDegseq (m : Inst) (ob : Obs) (t : Nat) : Part :=
-  { names := ["degree_sequence"], want := [V.ofNats (Spec.degreeSequence ob.G)],
-    model := [oNats (m.core.degreeSequence t)], tags := [s!"threads={min t 17}"] }
+  { names := ["degree_sequence"], want := [V.ofNats (degreeSequenceOracle ob)],
+    model := [oNats (m.degseq t)],
+    tags := [s!"threads={min t 17}"] ++ (if ob.nverts > 300 then ["degseq-fast-twin"] else []) }
 
 def vertexFields : String := "(fields: outN inN indeg outdeg deg sink source isolated pendant outNW)"
 
